@@ -73,6 +73,10 @@ def diff_case(draw: Any) -> dict[str, Any]:
         "loader": draw(st.sampled_from(LOADERS)),
         "mask": draw(st.integers(0, 15)),
         "via": draw(st.sampled_from(["from_string", "get_template"])),
+        # resource limits are enforced by hand-written sync/async twins as well
+        "limits": draw(st.sampled_from([None, None, None, {"loop_iteration_limit": 6}, {"loop_iteration_limit": 12},
+                                        {"loop_iteration_limit": 30}, {"output_stream_limit": 40},
+                                        {"context_depth_limit": 4}, {"local_namespace_limit": 400}])),
     }
 
 
@@ -123,6 +127,54 @@ class C03(Prop):
 
     def strategy(self, tier: str, disabled: frozenset[str]):
         return st.one_of(diff_case(), diff_case(), diff_case(), sched_case())
+
+    def enumerate(self, tier: str, disabled: frozenset[str]):
+        """Resource limits at their boundaries, for every pairing of loop constructs: the limit checks are
+        written twice (sync and async) in every tag that loops, loads or buffers."""
+        outers = {
+            "for": "{% for a in (1..3) %}@{% endfor %}",
+            "tablerow": "{% tablerow a in (1..3) cols: 2 %}@{% endtablerow %}",
+            "render-for": "{% render 'mid' for nums %}",
+            "include-for": "{% include 'mid' for nums %}",
+            "for-render": "{% for a in (1..3) %}{% render 'mid' %}{% endfor %}",
+            "for-include-capture": "{% for a in (1..3) %}{% capture c %}{% include 'mid' %}{% endcapture %}{{ c }}{% endfor %}",
+            "for-call": "{% macro m %}@{% endmacro %}{% for a in (1..3) %}{% call m %}{% endfor %}",
+        }
+        inners = {
+            "for": "{% for b in (1..4) %}x{% endfor %}",
+            "tablerow": "{% tablerow b in (1..4) %}x{% endtablerow %}",
+            "render-for": "{% render 'leaf' for four %}",
+            "include-for": "{% include 'leaf' for four %}",
+            "render-for-nested": "{% render 'leaf2' for four %}",
+        }
+        data = {"nums": [1, 2, 3], "four": [1, 2, 3, 4]}
+        for oi, (on, o) in enumerate(sorted(outers.items())):
+            for ii, (inn, inner) in enumerate(sorted(inners.items())):
+                src = o.replace("@", inner)
+                templates = {"mid": inner, "leaf": "y", "leaf2": "{% for c in (1..2) %}z{% endfor %}"}
+                product = 12 * (2 if inn == "render-for-nested" else 1)
+                for limit in (2, 3, 4, product - 1, product, product + 1):
+                    for li, loader in enumerate(("dict", "adict", "acdict")):
+                        if (oi + ii + li + limit) % 3 and loader != "dict":
+                            continue
+                        yield {"kind": "diff", "src": src, "templates": templates, "data": data, "loader": loader,
+                               "mask": (oi + ii) % 16, "via": "from_string",
+                               "limits": {"loop_iteration_limit": limit}, "family": f"limit-nest:{on}:{inn}"}
+        # depth and output limits across include / render / extends chains
+        chain = {"d1": "1{% include 'd2' %}", "d2": "2{% render 'd3' %}", "d3": "3{% include 'd4' %}", "d4": "4{% render 'd5' %}",
+                 "d5": "5", "base": "[{% block b %}B{% endblock %}]",
+                 "child": "{% extends 'base' %}{% block b %}{{ block.super }}{% include 'd3' %}{% endblock %}"}
+        for entry in ("{% include 'd1' %}", "{% render 'd1' %}", "{% render 'child' %}", "{% include 'child' %}",
+                      "{% for i in (1..2) %}{% render 'd2' %}{% endfor %}"):
+            for lim in ({"context_depth_limit": n} for n in (2, 3, 4, 5, 6, 7)):
+                yield {"kind": "diff", "src": entry, "templates": chain, "data": {}, "loader": "adict", "mask": 0,
+                       "via": "from_string", "limits": lim, "family": "limit-depth"}
+            for lim in ({"output_stream_limit": n} for n in (1, 2, 3, 4, 5, 8, 9, 10)):
+                yield {"kind": "diff", "src": entry, "templates": chain, "data": {}, "loader": "dict", "mask": 0,
+                       "via": "from_string", "limits": lim, "family": "limit-output"}
+
+    def enumerated_is_exhaustive(self, tier: str) -> bool:
+        return False
 
     def budget_s(self, tier: str) -> float:
         return 240 if tier == "quick" else 3000
@@ -184,18 +236,26 @@ class C03(Prop):
 
     def _check_diff(self, case: Any, tmp: list[str]) -> Result:  # noqa: PLR0912, PLR0915
         res = Result()
-        prog = case["prog"]
-        lay = case["layout"]
-        src = to_source(prog["main"], lay)
-        templates = {k: to_source(v, lay) for k, v in prog["templates"].items()}
+        if "src" in case:  # enumerated cases are given as source text
+            src = case["src"]
+            templates = dict(case["templates"])
+        else:
+            prog = case["prog"]
+            lay = case["layout"]
+            src = to_source(prog["main"], lay)
+            templates = {k: to_source(v, lay) for k, v in prog["templates"].items()}
         templates["__main__.html"] = src
         kind = case["loader"]
         needs_loop = kind in ("fs", "cfs")
         sched.USE_ASYNCIO[0] = needs_loop
         res.labels.append("loader:" + kind)
 
+        limits = case.get("limits")
+        if limits:
+            res.labels.append("limit:" + next(iter(limits)))
+
         def fresh() -> Any:
-            return make_env(shopify=True, loader=self._loader(kind, templates, tmp))
+            return make_env(shopify=True, loader=self._loader(kind, templates, tmp), limits=limits)
 
         def data() -> dict[str, Any]:
             d = wrap_async(case["data"], case["mask"])
@@ -407,8 +467,8 @@ class C03(Prop):
     def sample(self, case: Any) -> Any:
         if case["kind"] == "diff":
             return {"kind": "diff", "loader": case["loader"], "mask": case["mask"],
-                    "src": to_source(case["prog"]["main"], case["layout"])[:250],
-                    "partials": sorted(case["prog"]["templates"])}
+                    "src": (case["src"] if "src" in case else to_source(case["prog"]["main"], case["layout"]))[:250],
+                    "partials": sorted(case["templates"] if "src" in case else case["prog"]["templates"])}
         return {"kind": "sched", "loader": case["loader"], "n": len(case["progs"]), "schedule": case["schedule"][:20],
                 "src0": to_source(case["progs"][0]["main"], case["layout"])[:200]}
 
